@@ -142,6 +142,49 @@ def c14_pipeline(tname: str, mask: int, o0: int, o1: int, **leaves) -> str:
     return ""
 
 
+NAMES = ["a", "b", "c", "d"]
+
+
+def c14_names(n0: int, n1: int, n2: int, n3: int, u: int, v: int, order: int) -> str:
+    """Declarations  let N0 / register N1 / map N2 (a slice of the register) / let N3  with their names drawn from a
+    pool of four (the solver picks the collisions), in one of three orders; the body applies a gate to U[0] (U the
+    register or the alias) with numeric argument V (one of the two lets).  A name defined twice -- by the same or by
+    different kinds of declaration -- must be rejected with JaqalError at the latest at emulation; programs with four
+    distinct names are valid and must run."""
+    from jaqalpaq.core.circuitbuilder import build
+    from jaqalpaq.core.algorithm import fill_in_let
+    from .common import try_ref, concrete
+    from .gates import NATIVE, wrap_for_emulator
+    from .walk import emulate
+    N = NAMES
+    L0, Rg, Al, L1 = ["let", N[n0], 1], ["register", N[n1], 3], ["map", N[n2], N[n1], 0, 2, 1], ["let", N[n3], 0]
+    decl = [[L0, Rg, Al, L1], [Rg, L0, L1, Al], [L1, Rg, Al, L0]][order]
+    U = [N[n1], N[n2]][u]
+    V = [N[n0], N[n3]][v]
+    body = [["gate", "g1", ("array_item", U, 0)], ["gate", "h1", ("array_item", N[n1], 2), V]]
+    sx = concrete(wrap_for_emulator(["circuit"] + decl + body))
+    ref, why = try_ref(sx, {})
+    distinct = len({n0, n1, n2, n3}) == 4
+    if distinct and ref is None:
+        return f"harness error: reference rejects a program with distinct names ({why}) :: {sx}"
+    stage = "build"
+    try:
+        c = build(sx, inject_pulses=NATIVE)
+        stage = "fill_in_let"
+        c1 = fill_in_let(c)
+        stage = "run"
+        emulate(c1)
+    except JaqalError as ex:
+        if not distinct:
+            return "~rejected"
+        return f"valid program rejected at {stage}: {ex} :: {sx}"
+    except Exception as ex:
+        return f"non-JaqalError escaped at {stage}: {_exc(ex)} :: {sx}"
+    if not distinct:
+        return f"program defining a name twice was executed :: {sx}"
+    return ""
+
+
 def _install_pulse_modules(defs_a, defs_b):
     import sys
     import types
